@@ -239,7 +239,8 @@ def judge(c, i, m):
 
 
 # --------------------------------------------------------------------------- known findings
-# C12-K1 / C13-K1 (arrival-order fallback of _as_args) are status "fixed" (/repo d10af45) in /verif/known_findings.json: their
+# C12-K4 / C12-K5 (*args branch of the positional loop) are status "fixed" (/repo 137d0c4 / 1908fef), like
+# C12-K1 / C13-K1 (arrival-order fallback of _as_args), status "fixed" (/repo d10af45) in /verif/known_findings.json: their
 # witness is replayed on every run and a return is an ordinary VIOLATION; the matcher below only ever applies to an open entry.
 PENDING_FINDINGS = []
 
@@ -632,7 +633,7 @@ def gen_varargs_case(rng, maxchain):
         if rng.random() < 0.3:
             p['required'], p['default'] = False, [1, rng.choice(INT_POOL), 0]
     n_extra = max(0, len(stars) + rng.choice([-1, 0, 0, 0, 1]))
-    n_args = len(names) + n_extra if rng.random() < 0.85 or not names else rng.randrange(len(names) + 1)
+    n_args = len(names) + n_extra if rng.random() < 0.93 or not names else rng.randrange(len(names) + 1)   # rarely a named one missing
     args = [rng.choice([[1, rng.choice([0, 1, 2, 3, 4]), 0], [1, rng.choice([0, 1, 2, 3, 4]), 0], [2, rng.randrange(2), 0], gen_val(rng)])
             for _ in range(n_args)]
     return base_case(sig, params, 0 if rng.random() < 0.85 else rng.randrange(3), rng.random() < 0.6, False, rng.random() < 0.2, args, [],
